@@ -204,7 +204,15 @@ class ClaimNet:
                 elif last_claim.get(i, (None, None))[0] != 254 or last_claim[i][1] != self.names[i]:
                     probs.append("%s: CA %d lost but did not announce cannot-claim from the null address with its NAME" % (when, i))
             else:
-                if snap[i][0] != NORMAL or snap[i][1] == c['addr']:
+                lost253 = (253 in claimed and i in claimed[253] and min(claimed[253], key=lambda k: self.names[k]) != i)
+                if lost253:
+                    # 253 is the last claimable address: nothing is left to re-claim, cannot-claim (announced from 254) it is
+                    if snap[i][0] != CANNOT:
+                        probs.append("%s: arbitrary-address-capable CA %d lost address 253 (the last one) but is not in cannot-claim (state %d, address %r)"
+                                     % (when, i, snap[i][0], snap[i][1]))
+                    elif last_claim.get(i, (None, None))[0] != 254 or last_claim[i][1] != self.names[i]:
+                        probs.append("%s: CA %d lost but did not announce cannot-claim from the null address with its NAME" % (when, i))
+                elif snap[i][0] != NORMAL or snap[i][1] == c['addr']:
                     probs.append("%s: arbitrary-address-capable CA %d lost but did not settle on another address (state %d, address %d)"
                                  % (when, i, snap[i][0], snap[i][1]))
         return probs
@@ -320,6 +328,15 @@ def configs(tier):
                             cas = [{'idn': perm[i], 'aac': aac[i], 'addr': pat[i], 'delay': dl[i]} for i in range(n)]
                             sc = {'cas': cas, 'base_lat': base}
                             out.append((sc, 0))
+        # the top of the address range: the next address after 253 is the null address - there is none left to re-claim
+        if n <= 3:
+            for perm in perms:
+                for aac in aacs:
+                    for pat in ([253] * n, [252] * n, [252, 253, 253][:n], [253, 252, 252][:n]):
+                        for dl in (tuple([0.0] * n), tuple(DELAYS[1:n + 1]), tuple(reversed(DELAYS[1:n + 1]))):
+                            for base in (1e-3, 0.0):
+                                cas = [{'idn': perm[i], 'aac': aac[i], 'addr': pat[i], 'delay': dl[i]} for i in range(n)]
+                                out.append(({'cas': cas, 'base_lat': base}, 0))
         # a CA created with claiming bypassed (operational without ever having claimed) and started, contended by the others
         for perm in perms:
             for aac in aacs:
